@@ -110,7 +110,8 @@ struct FileInfo {
   bool isDirectory() const;
 
   bool operator==(const FileInfo& rhs) const {
-    return (device == rhs.device &&
+    return (isMissing() == rhs.isMissing() &&
+            device == rhs.device &&
             inode == rhs.inode &&
             size == rhs.size &&
             modTime == rhs.modTime &&
